@@ -25,7 +25,7 @@ func TestC15Race(t *testing.T) {
 	rec := evid.New(t, "C15", "maximally concurrent scenarios under the Go race detector: 3..5 channels (custom transports, TCP-server and UDP-server peers), 3..6 API goroutines mixing all six Write* calls, a router goroutine that edits received frames, calls FixFrame and forwards them with WriteFrameExcept, a consumer, heartbeats every 2-5 ms, stream requests triggered by ArduPilot heartbeats from several senders on several channels, peers connecting and leaving, and Close racing with all of it; any DATA RACE report whose stack includes a gomavlib package is a violation; non-trivial = >=2 API goroutines and >=2 channel readers active in overlapping intervals (measured from the harness timeline); distinct by hash of the scenario parameters")
 	rec.Require("overlapping-api-and-readers", "close-racing")
 	hbLay, _ := ref.LayoutOf(refTypeOf(&minimal.MessageHeartbeat{}))
-	evid.Check(t, rec, evid.N(40, 200), func(t *rapid.T) {
+	evid.Check(t, rec, evid.N(60, 250), func(t *rapid.T) {
 		ncustom := rapid.IntRange(2, 3).Draw(t, "ncustom")
 		ntcp := rapid.IntRange(0, 2).Draw(t, "ntcp")
 		nudp := rapid.IntRange(0, 1).Draw(t, "nudp")
